@@ -48,13 +48,14 @@ var c19Pool = []c19User{
 	{"CN=A", []string{"pa"}, "case variant"},
 	{"cn=long", []string{c19Long}, "password longer than 128 bytes"},
 	{"cn=bin", []string{"p\x00q"}, "password with a NUL inside"},
+	{"userPrincipalName=upn@example.com,ou=people,dc=example,dc=org", []string{"pu"}, "an entry named the way NewUsers names them for a UPN domain (the directory is started with Defaults.UPNDomain = example.com)"},
 }
 
 // c19Long: a 200-byte password; its 128-byte prefix and a variant with a different tail are tried as well
 var c19Long = strings.Repeat("0123456789abcdef", 12) + "tail-one"
 
-var c19DNs = []string{"cn=a", "cn=ab", "cn=a,dc=x", "CN=A", "cn=", "", "cn=e", "cn=d", "cn=c", "\xffcn=a", "cn=long", "cn=bin"}
-var c19PWs = []string{"pa", "pb", "", "p2", "other", "p1", "pa\x00", "\x00", "p", "p\x00q", "p\x00", c19Long, c19Long[:128], c19Long[:192] + "tail-two", c19Long + "\x00"}
+var c19DNs = []string{"cn=a", "cn=ab", "cn=a,dc=x", "CN=A", "cn=", "", "cn=e", "cn=d", "cn=c", "\xffcn=a", "cn=long", "cn=bin", "upn@example.com", "upn", "userPrincipalName=upn@example.com,ou=people,dc=example,dc=org"}
+var c19PWs = []string{"pa", "pb", "", "p2", "other", "p1", "pa\x00", "\x00", "p", "p\x00q", "p\x00", c19Long, c19Long[:128], c19Long[:192] + "tail-two", c19Long + "\x00", "pu"}
 
 func c19Pred(users []c19User, anon bool, dn, pw string) bool {
 	if pw == "" && anon {
@@ -146,7 +147,9 @@ func dirDial(addr, transport string) (*Client, error) {
 }
 
 func c19Run(c *Ctx, transport string) {
-	td, addr, err := startDirectory(transport)
+	tlOpt, _ := testdirectory.NewLogger(hclog.New(&hclog.LoggerOptions{Level: hclog.Off}))
+	// every directory option that is documented to influence logins is switched on: the predicate stays what it is
+	td, addr, err := startDirectory(transport, testdirectory.WithDefaults(tlOpt, &testdirectory.Defaults{UPNDomain: "example.com", UserAttr: "cn", GroupAttr: "cn"}))
 	if err != nil {
 		c.Inconclusive(err.Error())
 		return
